@@ -74,6 +74,7 @@ def gen_cases(tier, seed):
         ['[2,null,"Heartbeat",{}]', '[2,null,"Heartbeat",{}]', '[2,0,"Heartbeat",{}]', '[2,false,"Heartbeat",{}]', '[2,"","Heartbeat",{}]', '[2,"","Heartbeat",{}]'],
         ['[2,"a","Heartbeat",{}]', '[2,"b","Nope",{}]', '[2,"a","Heartbeat",{}]', '[3,"a",{}]', '[2,"a","Heartbeat",{}]'],
         ['[3,"r%d",{}]' % i for i in range(14)] + ['[4,"e%d","GenericError","",{}]' % i for i in range(14)] + ['[2,"after-replies","Heartbeat",{}]'],
+        ['[3,"r%d",{}]' % i for i in range(600)] + ['[4,"e%d","GenericError","",{}]' % i for i in range(600)] + ['[2,"after-flood","Heartbeat",{}]'],
         ['', '[2,"x","Heartbeat",{}]', b'', '[2,"y","Heartbeat",{}]', ' ', '[2,"z","Heartbeat",{}]'],
     ]
     for fr in fixed:
